@@ -104,6 +104,9 @@ def plan_for(prop, tier, seed):
     HUGE = [eng("native-rel", "huge", ["--shim", "shadow"], 1, seed + 51, weight=4, label="native-rel(huge texts)")]
     if n == 1:
         p["jobs"] = explore_mix(["default", "sharing", "static", "fillcap", "errorpath"], tier, seed) + HUGE
+        if quick:
+            p["jobs"] += [ex("miri-i686", "default", 2, 55, 2, seed + 61, weight=10, timeout=1500, label="miri-i686"),
+                          ex("miri-be", "sharing", 2, 55, 1, seed + 62, weight=10, timeout=1500, label="miri-powerpc64-be")]
     elif n == 2:
         p["jobs"] = explore_mix(["sharing", "static", "errorpath", "shrink"], tier, seed) + HUGE
     elif n == 3:
@@ -202,6 +205,10 @@ def plan_for(prop, tier, seed):
             if t in ("i8", "u8", "i16", "u16"):
                 continue
             jobs.append(eng("miri", "ints", ["--only", t, "--random", 0] + (["--kstep", 3] if (quick and "128" in t) else []), 1, seed + 10 + i, label="miri", **MT))
+        if quick:
+            # on 32-bit targets isize/usize/i32 take the `as u32` path: two small shards in every run
+            for i, t in enumerate(["isize", "usize"]):
+                jobs.append(eng("miri-i686", "ints", ["--only", t, "--random", 0], 1, seed + 30 + i, label="miri-i686", **MT))
         if not quick:
             for i, t in enumerate(["i32", "i64", "isize", "usize", "u128"]):
                 jobs.append(eng("miri-i686", "ints", ["--only", t, "--random", 0], 1, seed + 30 + i, label="miri-i686", **MT))
